@@ -12,7 +12,8 @@
  * canonical output: `begin n`, `poll n block|now` (what timeout backend handed to the poller), the LPC lines of
  * harness/mudlib/c12/user.c (logon/cmd/ecmd/kick/drop/force/gc/it), echoed `send`/`close` lines for actions that
  * were really performed, and `end n max=<max_users> <slot>:<user>:<iflags & (HAS_CMD_TURN|CMD_IN_BUF|SINGLE_CHAR)>...` after
- * every cycle.
+ * every cycle.  An iteration left by an uncaught LPC error (script op `err`) never reaches the hook: it is seen through
+ * the second poll of the hook period and logged as `abort n` followed by `begin n+1`.
  *
  * libc interposition: bind() -> ephemeral port (parallel checks must not collide);
  *                     epoll_wait() -> records whether backend asked to block, then polls with timeout 0.
@@ -39,6 +40,7 @@ static int nlines = 0, curline = 0;
 static int cycle_no = 0;
 static int port = 0;
 static int in_cycle = 0;
+static int polled = 0;		/* backend() has polled in the running iteration */
 
 static int cfd[MAXCL];		/* client socket of u<k>, -1 = closed / never opened */
 static interactive_t *cip[MAXCL];	/* server side of u<k> once accepted */
@@ -59,11 +61,50 @@ int bind (int fd, const struct sockaddr *addr, socklen_t len)
   return (int) syscall (SYS_bind, fd, addr, len);
 }
 
+/* sort key of a reported event: the context pointer the driver registered */
+static long ev_key (void *ctx)
+{
+  if ((char *) ctx >= (char *) &external_port[0] && (char *) ctx < (char *) &external_port[5])
+    return 0;
+  for (int i = 0; i < max_users; i++)
+    if (all_users && (void *) all_users[i] == ctx)
+      return 1 + i;
+  return 1000000;
+}
+
 int epoll_wait (int epfd, struct epoll_event *ev, int maxev, int timeout)
 {
   if (in_cycle)
-    vh_out ("poll %d %s", cycle_no, timeout == 0 ? "now" : "block");
-  return (int) syscall (SYS_epoll_pwait, epfd, ev, maxev, 0, (void *) 0, (size_t) 8);
+    {
+      if (polled)
+        {
+          /* a second poll without the hook in between: the previous iteration was left by longjmp (uncaught
+           * error in a command) and the while(1) loop of backend() has restarted */
+          vh_out ("abort %d", cycle_no);
+          cycle_no++;
+          vh_out ("begin %d", cycle_no);
+        }
+      polled = 1;
+      vh_out ("poll %d %s", cycle_no, timeout == 0 ? "now" : "block");
+    }
+  int n = (int) syscall (SYS_epoll_pwait, epfd, ev, maxev, 0, (void *) 0, (size_t) 8);
+  /* The order in which the kernel reports ready descriptors is unspecified.  Make it deterministic (any order is a
+   * legal epoll result): listening ports first, then the users in slot order, everything else last - so that a
+   * connect and a disconnect inside one process_io() can be compared with the model (accept, then the users in table
+   * order). */
+  for (int a = 1; a < n; a++)
+    {
+      struct epoll_event e = ev[a];
+      long ka = ev_key (e.data.ptr);
+      int b = a - 1;
+      while (b >= 0 && ev_key (ev[b].data.ptr) > ka)
+        {
+          ev[b + 1] = ev[b];
+          b--;
+        }
+      ev[b + 1] = e;
+    }
+  return n;
 }
 
 /* ---- helpers -------------------------------------------------------------- */
@@ -253,6 +294,7 @@ static int hook (void)
           drain_clients ();
           cycle_no++;
           in_cycle = 1;
+          polled = 0;
           vh_out ("begin %d", cycle_no);
           return 0;
         }
